@@ -283,10 +283,43 @@ func serverHarness(rc *RunCtx) {
 				}
 			}
 			settle(3 * time.Second)
+			stopped := false
+			cleanConn := -1
+			for c := range ssts {
+				ok := true
+				for _, r := range reqs {
+					if r.conn == c && (r.kind == "malformed" || r.kind == "dropped") {
+						ok = false // that connection may be out of step after the malformed request
+					}
+				}
+				if ok {
+					cleanConn = c
+					break
+				}
+			}
+			if tp.Intn("stopinflight", 4) == 3 && cleanConn >= 0 {
+				// the operator stops the server while a request is inside its handler: a request that was accepted
+				// still gets its one reply (Stop ends accepting, it does not take answers away)
+				rc.Fault("stop-while-a-request-is-in-its-handler")
+				r := &rawReq{opid: "5999", tag: "rlast", conn: cleanConn, kind: "valid", method: "add", outcome: "ok", wantType: thrift.REPLY, wantFields: []int16{0}}
+				env.plans[r.tag] = &callPlan{id: 999, tag: r.tag, method: "add", outcome: "ok", ret: int32(5), dur: 20 * time.Millisecond}
+				r.frame = EncodeFrame(map[string]string{"_opid": r.opid, "_cid": "cidlast", "_timeout": "5000", "tag": r.tag},
+					rawMessage(env.proto, "add", thrift.CALL, []rawField{{1, thrift.I32, int32(2)}, {2, thrift.I32, int32(3)}}))
+				reqs = append(reqs, r)
+				byOpid[r.opid] = r
+				ssts[cleanConn].PeerWrite(r.frame)
+				r.sent = true
+				settle(2 * time.Millisecond)
+				srv.Stop()
+				stopped = true
+				settle(time.Second)
+			}
 			for _, sst := range ssts {
 				sst.PeerEnd(nil)
 			}
-			srv.Stop()
+			if !stopped {
+				srv.Stop()
+			}
 			simrt.Recv(simrt.HarnessSite("serve-done"), done)
 		case "nats":
 			env.b = NewSimBroker(rc)
